@@ -28,12 +28,19 @@ type LineT struct {
 type FileObj struct {
 	name    string
 	Exists  *Term
+	Exists0 *Term // at world initialisation
 	Cells   []*LineCell
 	Garbled *Term // overwritten in place (no O_APPEND / O_TRUNC): an unparsable complete last line may follow
 }
 
+type fAlt struct {
+	g *Term
+	f *FileObj
+}
+
 type fileHandle struct {
 	f        *FileObj
+	alts     []fAlt // the files this handle may refer to (path chosen by a symbolic condition); guards are exclusive
 	appendMd bool
 	inPlace  bool
 	write    bool
@@ -86,17 +93,21 @@ func (w *World) fsInit() {
 		"os.OpenFile":                w.fsOpenFile,
 		"os.Rename":                  w.fsRename,
 		"os.Remove": func(ex *Exec, c *callCtx) Value {
-			f := w.file(c.args[0])
-			existed := f.Exists
-			alive, _ := w.effect(c, "remove", f)
-			f.Exists = And(f.Exists, Not(alive))
-			for _, cl := range f.Cells {
-				cl.Pres = And(cl.Pres, Not(alive))
+			fa := w.filesOf(c.args[0])
+			existed := altsExists(fa)
+			for _, x := range fa {
+				f := x.f
+				alive, _ := w.effect(withGuard(c, x.g), "remove", f)
+				f.Exists = And(f.Exists, Not(alive))
+				for _, cl := range f.Cells {
+					cl.Pres = And(cl.Pres, Not(alive))
+				}
+				f.Garbled = And(f.Garbled, Not(alive))
 			}
-			f.Garbled = And(f.Garbled, Not(alive))
 			return MergeV(existed, NilRef(), w.notExistErr())
 		},
 		"os.WriteFile":               w.fsWriteFile,
+		"os.MkdirAll":                func(ex *Exec, c *callCtx) Value { return NilRef() },
 		"(*os.File).Close":           func(ex *Exec, c *callCtx) Value { return NilRef() },
 		"(*os.File).Sync":            func(ex *Exec, c *callCtx) Value { return NilRef() },
 		"(*os.File).Stat":            w.fsFileStat,
@@ -131,7 +142,29 @@ func (w *World) fsInit() {
 		ergoPath + ".zzParseErrInfo": w.fsParseErrInfo,
 		ergoPath + ".zzLogShape":     w.fsLogShape,
 		ergoPath + ".zzFirstBadLine": w.fsFirstBadLine,
+		ergoPath + ".zzFileExisted": func(ex *Exec, c *callCtx) Value {
+			var ps []*Term
+			for _, x := range w.filesOf(c.args[0]) {
+				e := x.f.Exists0
+				if e == nil {
+					e = False // did not exist when the world was built
+				}
+				ps = append(ps, And(x.g, e))
+			}
+			return BoolV{Or(ps...)}
+		},
 		ergoPath + ".zzStoreEffects": w.fsStoreEffects,
+		ergoPath + ".zzFileEffects": func(ex *Exec, c *callCtx) Value {
+			n := BVC(0, 64)
+			for _, x := range w.filesOf(c.args[0]) {
+				for _, e := range w.fs.effT {
+					if e.f == x.f {
+						n = BVBin("bvadd", n, Ite(And(x.g, e.g), BVC(1, 64), BVC(0, 64)))
+					}
+				}
+			}
+			return IntV{n, true}
+		},
 		ergoPath + ".zzHistoryPreserved": w.fsHistoryPreserved,
 		ergoPath + ".zzLockDiscipline": w.fsLockDiscipline,
 		ergoPath + ".zzNoTornWrites": func(ex *Exec, c *callCtx) Value {
@@ -150,14 +183,116 @@ func (w *World) fsInit() {
 	w.fs.die = nil
 }
 
-func (w *World) file(path Value) *FileObj {
-	t := path.(StrV).T
+func (w *World) fileT(t *Term) *FileObj {
 	f, ok := w.fs.files[t]
 	if !ok {
 		f = &FileObj{name: t.Pretty(3), Exists: False, Garbled: False}
 		w.fs.files[t] = f
 	}
 	return f
+}
+
+func (w *World) file(path Value) *FileObj {
+	a := w.filesOf(path)
+	if len(a) != 1 {
+		panic(unsupported("path with %d alternatives where one file is expected", len(a)))
+	}
+	return a[0].f
+}
+
+// filesOf: a path computed by symbolic choices (getEventsPath: plans.jsonl or events.jsonl) names
+// one of several files; the alternatives' guards are exclusive and exhaustive.
+func (w *World) filesOf(path Value) []fAlt {
+	var out []fAlt
+	var walk func(t, g *Term)
+	walk = func(t, g *Term) {
+		if g.IsFalse() {
+			return
+		}
+		if t.op == "ite" {
+			walk(t.args[1], And(g, t.args[0]))
+			walk(t.args[2], And(g, Not(t.args[0])))
+			return
+		}
+		if t.op == "uf:cat" && t.args[0].op == "ite" {
+			// <chosen log>.tmp
+			walk(Ite(t.args[0].args[0], UF("cat", SInt, t.args[0].args[1], t.args[1]), UF("cat", SInt, t.args[0].args[2], t.args[1])), g)
+			return
+		}
+		f := w.fileT(t)
+		for i := range out {
+			if out[i].f == f {
+				out[i].g = Or(out[i].g, g)
+				return
+			}
+		}
+		out = append(out, fAlt{g, f})
+	}
+	walk(path.(StrV).T, True)
+	return out
+}
+
+func withGuard(c *callCtx, g *Term) *callCtx {
+	if g.IsTrue() {
+		return c
+	}
+	cp := *c
+	cp.guard = And(c.guard, g)
+	return &cp
+}
+
+func altsExists(a []fAlt) *Term {
+	var ps []*Term
+	for _, x := range a {
+		ps = append(ps, And(x.g, x.f.Exists))
+	}
+	return Or(ps...)
+}
+
+func (h *fileHandle) files() []fAlt {
+	if len(h.alts) > 0 {
+		return h.alts
+	}
+	return []fAlt{{True, h.f}}
+}
+
+func (h *fileHandle) nonEmpty() *Term {
+	var ps []*Term
+	for _, x := range h.files() {
+		ps = append(ps, And(x.g, x.f.nonEmpty()))
+	}
+	return Or(ps...)
+}
+
+func (h *fileHandle) endsWithNewline() *Term {
+	var ps []*Term
+	for _, x := range h.files() {
+		ps = append(ps, Implies(x.g, x.f.endsWithNewline()))
+	}
+	return And(ps...)
+}
+
+// cells: the lines a reader of this handle sees now (exactly one alternative's are present).
+func (h *fileHandle) cells(evZero Value) []*LineCell {
+	fa := h.files()
+	if len(fa) == 1 && fa[0].g.IsTrue() {
+		f := fa[0].f
+		out := append([]*LineCell(nil), f.Cells...)
+		if !f.Garbled.IsFalse() {
+			out = append(out, &LineCell{Pres: f.Garbled, Blank: False, Parses: False, Complete: True, Ev: evZero})
+		}
+		return out
+	}
+	var out []*LineCell
+	for _, x := range fa {
+		for _, cl := range x.f.Cells {
+			out = append(out, &LineCell{Pres: And(x.g, cl.Pres), Blank: cl.Blank, Parses: cl.Parses, Complete: cl.Complete, Ev: cl.Ev})
+		}
+		if !x.f.Garbled.IsFalse() {
+			out = append(out, &LineCell{Pres: And(x.g, x.f.Garbled), Blank: False, Parses: False, Complete: True, Ev: evZero})
+		}
+	}
+	return out
 }
 
 // effect allocates the next effect index; returns the guard under which it happens entirely.
@@ -189,9 +324,10 @@ func (w *World) notExistErr() Value {
 }
 
 func (w *World) fsStat(ex *Exec, c *callCtx) Value {
-	f := w.file(c.args[0])
-	info := Ref1(IfaceT{Typ: fileInfoType(), V: Ref1(AddrT{Obj: w.infoObj(f)})})
-	return TupleV{E: []Value{MergeV(f.Exists, info, NilRef()), MergeV(f.Exists, NilRef(), w.notExistErr())}}
+	fa := w.filesOf(c.args[0])
+	ex1 := altsExists(fa)
+	info := Ref1(IfaceT{Typ: fileInfoType(), V: Ref1(AddrT{Obj: w.infoObjH(&fileHandle{f: fa[0].f, alts: fa})})})
+	return TupleV{E: []Value{MergeV(ex1, info, NilRef()), MergeV(ex1, NilRef(), w.notExistErr())}}
 }
 
 var fileInfoT types.Type
@@ -203,9 +339,9 @@ func fileInfoType() types.Type {
 	return fileInfoT
 }
 
-func (w *World) infoObj(f *FileObj) *Object {
-	o := w.ex.newObject("fileinfo:"+f.name, nil, StructV{})
-	w.fs.handles[o] = &fileHandle{f: f}
+func (w *World) infoObjH(h *fileHandle) *Object {
+	o := w.ex.newObject("fileinfo:"+h.f.name, nil, StructV{})
+	w.fs.handles[o] = h
 	return o
 }
 
@@ -234,7 +370,7 @@ func (w *World) lookupInvokeFS(t types.Type, method string) modelFn {
 	case "Size":
 		return func(ex *Exec, c *callCtx) Value {
 			h := w.fs.handles[c.args[0].(RefV).Alts[0].Tgt.(AddrT).Obj]
-			return IntV{Ite(h.f.nonEmpty(), BVC(1, 64), BVC(0, 64)), true}
+			return IntV{Ite(h.nonEmpty(), BVC(1, 64), BVC(0, 64)), true}
 		}
 	case "IsDir":
 		return func(ex *Exec, c *callCtx) Value { return BoolV{False} }
@@ -244,7 +380,9 @@ func (w *World) lookupInvokeFS(t types.Type, method string) modelFn {
 
 func (w *World) newHandle(f *FileObj, h *fileHandle) Value {
 	o := w.ex.newObject("file:"+f.name, nil, StructV{})
-	h.f = f
+	if h.f == nil {
+		h.f = f
+	}
 	w.fs.handles[o] = h
 	return Ref1(AddrT{Obj: o})
 }
@@ -262,10 +400,13 @@ func (w *World) handleOf(v Value) *fileHandle {
 }
 
 func (w *World) fsOpen(ex *Exec, c *callCtx) Value {
-	f := w.file(c.args[0])
-	w.fs.reads = append(w.fs.reads, effRec{g: c.guard, inLock: w.lockHeld, idx: w.fs.nEff, f: f, kind: "open"})
-	h := w.newHandle(f, &fileHandle{})
-	return TupleV{E: []Value{MergeV(f.Exists, h, NilRef()), MergeV(f.Exists, NilRef(), w.notExistErr())}}
+	fa := w.filesOf(c.args[0])
+	for _, x := range fa {
+		w.fs.reads = append(w.fs.reads, effRec{g: And(c.guard, x.g), inLock: w.lockHeld, idx: w.fs.nEff, f: x.f, kind: "open"})
+	}
+	ex1 := altsExists(fa)
+	h := w.newHandle(fa[0].f, &fileHandle{f: fa[0].f, alts: fa})
+	return TupleV{E: []Value{MergeV(ex1, h, NilRef()), MergeV(ex1, NilRef(), w.notExistErr())}}
 }
 
 const (
@@ -276,42 +417,48 @@ const (
 )
 
 func (w *World) fsOpenFile(ex *Exec, c *callCtx) Value {
-	f := w.file(c.args[0])
+	fa := w.filesOf(c.args[0])
 	fl := c.args[1].(IntV).T
 	if !fl.IsConst() {
 		panic(unsupported("os.OpenFile with a non-constant flag word"))
 	}
 	flags := int(fl.SVal())
-	ok := f.Exists
-	if flags&oCREATE != 0 {
-		alive, _ := w.effect(c, "create", f)
-		f.Exists = Or(f.Exists, alive)
-		ok = True
-	}
-	h := &fileHandle{write: flags&(oWRONLY|2) != 0, appendMd: flags&oAPPEND != 0}
-	if flags&oTRUNC != 0 {
-		alive, _ := w.effect(c, "truncate", f)
-		for _, cl := range f.Cells {
-			cl.Pres = And(cl.Pres, Not(alive))
+	ok := altsExists(fa)
+	h := &fileHandle{f: fa[0].f, alts: fa, write: flags&(oWRONLY|2) != 0, appendMd: flags&oAPPEND != 0}
+	for _, x := range fa {
+		f := x.f
+		cx := withGuard(c, x.g)
+		if flags&oCREATE != 0 {
+			alive, _ := w.effect(cx, "create", f)
+			f.Exists = Or(f.Exists, alive)
+			ok = True
 		}
-		f.Garbled = And(f.Garbled, Not(alive))
-	} else if h.write && !h.appendMd {
+		if flags&oTRUNC != 0 {
+			alive, _ := w.effect(cx, "truncate", f)
+			for _, cl := range f.Cells {
+				cl.Pres = And(cl.Pres, Not(alive))
+			}
+			f.Garbled = And(f.Garbled, Not(alive))
+		}
+	}
+	if flags&oTRUNC == 0 && h.write && !h.appendMd {
 		h.inPlace = true // writes start at offset 0 over whatever is there
 	}
-	hv := w.newHandle(f, h)
+	hv := w.newHandle(fa[0].f, h)
 	return TupleV{E: []Value{MergeV(ok, hv, NilRef()), MergeV(ok, NilRef(), w.notExistErr())}}
 }
 
 func (w *World) fsWriteFile(ex *Exec, c *callCtx) Value {
-	f := w.file(c.args[0])
-	alive, _ := w.effect(c, "create", f)
-	f.Exists = Or(f.Exists, alive)
+	for _, x := range w.filesOf(c.args[0]) {
+		alive, _ := w.effect(withGuard(c, x.g), "create", x.f)
+		x.f.Exists = Or(x.f.Exists, alive)
+	}
 	return NilRef()
 }
 
 func (w *World) fsFileStat(ex *Exec, c *callCtx) Value {
 	h := w.handleOf(c.args[0])
-	info := Ref1(IfaceT{Typ: fileInfoType(), V: Ref1(AddrT{Obj: w.infoObj(h.f)})})
+	info := Ref1(IfaceT{Typ: fileInfoType(), V: Ref1(AddrT{Obj: w.infoObjH(h)})})
 	return TupleV{E: []Value{info, NilRef()}}
 }
 
@@ -319,7 +466,7 @@ func (w *World) fsReadAt(ex *Exec, c *callCtx) Value {
 	h := w.handleOf(c.args[0])
 	buf := c.args[1].(RefV)
 	st := buf.Alts[0].Tgt.(SliceT)
-	b := Ite(h.f.endsWithNewline(), BVC('\n', 8), BVC('x', 8))
+	b := Ite(h.endsWithNewline(), BVC('\n', 8), BVC('x', 8))
 	arr := st.Arr.val.(ArrayV)
 	ne := make([]Value, len(arr.E))
 	copy(ne, arr.E)
@@ -365,7 +512,18 @@ func (w *World) writeLine(c *callCtx, h *fileHandle, data Value) {
 	if !ok {
 		panic(unsupported("write of non-event bytes (%T)", r.Alts[0].Tgt))
 	}
-	f := h.f
+	_, hasNL := bt.B.Keys["\n"]
+	wasInPlace := h.inPlace
+	for _, x := range h.files() {
+		w.writeLine1(withGuard(c, x.g), h, x.f, bt, hasNL, wasInPlace)
+	}
+	if wasInPlace {
+		h.inPlace = false
+		h.appendMd = true
+	}
+}
+
+func (w *World) writeLine1(c *callCtx, h *fileHandle, f *FileObj, bt BoxT, hasNL, inPlace bool) {
 	alive, idx := w.effect(c, "write", f)
 	fs := w.fs
 	tornHere, tornAllHere := False, False
@@ -375,16 +533,13 @@ func (w *World) writeLine(c *callCtx, h *fileHandle, data Value) {
 		tornAllHere = And(here, fs.tornAll, Not(fs.torn))
 	}
 	lands := Or(alive, tornHere, tornAllHere)
-	_, hasNL := bt.B.Keys["\n"]
-	if h.inPlace {
+	if inPlace {
 		// overwriting in place: whatever was there beyond the new content survives as garbage
 		wasNonEmpty := f.nonEmpty()
 		for _, cl := range f.Cells {
 			cl.Pres = And(cl.Pres, Not(lands))
 		}
 		f.Garbled = Or(f.Garbled, And(lands, wasNonEmpty, w.ex.nondet(fmt.Sprintf("world.oldlonger!%d", idx), "bool").(BoolV).T))
-		h.inPlace = false
-		h.appendMd = true
 	}
 	// an incomplete last line swallows the new bytes: the glued line does not parse
 	glue := Not(f.endsWithNewline())
@@ -423,19 +578,31 @@ func (w *World) fsWriterWrite(ex *Exec, c *callCtx) Value {
 }
 
 func (w *World) fsRename(ex *Exec, c *callCtx) Value {
-	a, b := w.file(c.args[0]), w.file(c.args[1])
-	alive, _ := w.effect(c, "rename", b)
-	var cells []*LineCell
-	for _, cl := range b.Cells {
-		cells = append(cells, &LineCell{Pres: And(cl.Pres, Not(alive)), Blank: cl.Blank, Parses: cl.Parses, Complete: cl.Complete, Ev: cl.Ev})
+	for _, xa := range w.filesOf(c.args[0]) {
+		for _, xb := range w.filesOf(c.args[1]) {
+			g := And(xa.g, xb.g)
+			if g.IsFalse() {
+				continue
+			}
+			a, b := xa.f, xb.f
+			alive, _ := w.effect(withGuard(c, g), "rename", b)
+			var cells []*LineCell
+			for _, cl := range b.Cells {
+				cells = append(cells, &LineCell{Pres: And(cl.Pres, Not(alive)), Blank: cl.Blank, Parses: cl.Parses, Complete: cl.Complete, Ev: cl.Ev})
+			}
+			for _, cl := range a.Cells {
+				cells = append(cells, &LineCell{Pres: And(cl.Pres, alive), Blank: cl.Blank, Parses: cl.Parses, Complete: cl.Complete, Ev: cl.Ev})
+			}
+			for _, cl := range a.Cells {
+				cl.Pres = And(cl.Pres, Not(alive))
+			}
+			b.Cells = cells
+			b.Garbled = Ite(alive, a.Garbled, b.Garbled)
+			a.Garbled = And(a.Garbled, Not(alive))
+			b.Exists = Or(b.Exists, alive)
+			a.Exists = And(a.Exists, Not(alive))
+		}
 	}
-	for _, cl := range a.Cells {
-		cells = append(cells, &LineCell{Pres: And(cl.Pres, alive), Blank: cl.Blank, Parses: cl.Parses, Complete: cl.Complete, Ev: cl.Ev})
-	}
-	b.Cells = cells
-	b.Garbled = Ite(alive, a.Garbled, b.Garbled)
-	b.Exists = Or(b.Exists, alive)
-	a.Exists = And(a.Exists, Not(alive))
 	return NilRef()
 }
 
@@ -458,21 +625,12 @@ func (w *World) scannerOf(v Value) *scannerState {
 // map iteration (the call is the first instruction of the `for scanner.Scan()` header).
 func (w *World) fsScan(ex *Exec, c *callCtx) Value {
 	s := w.scannerOf(c.args[0])
-	f := s.h.f
 	pos := s.pos
 	s.pos++
 	// the file content is the snapshot at this call (A2: one instant)
-	if pos < len(f.Cells) {
-		cl := f.Cells[pos]
-		fr := c.fr
-		fr.addEdge(fr.cur, And(fr.guard, Not(cl.Pres)), nil)
-		fr.guard = And(fr.guard, cl.Pres)
-		s.curCell = cl
-		return BoolV{True}
-	}
-	if pos == len(f.Cells) {
-		// a garbled tail shows up as one more complete, unparsable line
-		cl := &LineCell{Pres: f.Garbled, Blank: False, Parses: False, Complete: True, Ev: ZeroValue(w.ex.pkg.Type("Event").Type())}
+	cells := s.h.cells(ZeroValue(w.ex.pkg.Type("Event").Type()))
+	if pos < len(cells) {
+		cl := cells[pos]
 		fr := c.fr
 		fr.addEdge(fr.cur, And(fr.guard, Not(cl.Pres)), nil)
 		fr.guard = And(fr.guard, cl.Pres)
@@ -560,23 +718,35 @@ func (w *World) fsProcAlive(ex *Exec, c *callCtx) Value {
 
 // zzLogShape(path) (exists, lastLineComplete bool, presentLines int)
 func (w *World) fsLogShape(ex *Exec, c *callCtx) Value {
-	f := w.file(c.args[0])
+	fa := w.filesOf(c.args[0])
+	h := &fileHandle{f: fa[0].f, alts: fa}
 	n := BVC(0, 64)
-	for _, cl := range f.Cells {
-		n = BVBin("bvadd", n, Ite(cl.Pres, BVC(1, 64), BVC(0, 64)))
+	for _, x := range fa {
+		for _, cl := range x.f.Cells {
+			n = BVBin("bvadd", n, Ite(And(x.g, cl.Pres), BVC(1, 64), BVC(0, 64)))
+		}
 	}
-	return TupleV{E: []Value{BoolV{f.Exists}, BoolV{f.endsWithNewline()}, IntV{n, true}}}
+	return TupleV{E: []Value{BoolV{altsExists(fa)}, BoolV{h.endsWithNewline()}, IntV{n, true}}}
 }
 
 // BVToInt: integer value of a small non-negative BV term (ite/const shapes fold; otherwise UF).
+var bvToIntMemo = map[*Term]*Term{}
+
 func BVToInt(t *Term) *Term {
 	if t.IsConst() {
 		return IntC(t.SVal())
 	}
-	if t.op == "ite" {
-		return Ite(t.args[0], BVToInt(t.args[1]), BVToInt(t.args[2]))
+	if r, ok := bvToIntMemo[t]; ok {
+		return r
 	}
-	return UF("bv2int", SInt, t)
+	var r *Term
+	if t.op == "ite" {
+		r = Ite(t.args[0], BVToInt(t.args[1]), BVToInt(t.args[2]))
+	} else {
+		r = UF("bv2int", SInt, t)
+	}
+	bvToIntMemo[t] = r
+	return r
 }
 
 // zzFSInit(spec) string: switches the file model on and creates the initial world: a log of up
@@ -597,6 +767,11 @@ func (w *World) mFSInit(ex *Exec, c *callCtx) Value {
 	logF.Exists = ex.nondet("fs.log.exists", "bool").(BoolV).T
 	if hs.by["logexists"] == 1 {
 		logF.Exists = True
+	}
+	if v, ok := hs.by["plans"]; ok {
+		// fixed configuration (case split done by the harness): recorded for the native replay
+		logF.Exists = BoolC(v == 1)
+		ex.assume(Eq(ex.nondet("fs.log.exists", "bool").(BoolV).T, logF.Exists))
 	}
 	m := hs.def
 	for i := 0; i < m; i++ {
@@ -635,8 +810,30 @@ func (w *World) mFSInit(ex *Exec, c *callCtx) Value {
 	w.tmpFile = tmp
 	old := w.file(join("events.jsonl"))
 	old.Exists = False
+	if hs.by["legacy"] == 1 {
+		// a store that may hold the legacy events.jsonl, plans.jsonl, both or neither
+		old.Exists = ex.nondet("fs.old.exists", "bool").(BoolV).T
+		if v, ok := hs.by["old"]; ok {
+			ex.assume(Eq(old.Exists, BoolC(v == 1)))
+			old.Exists = BoolC(v == 1)
+		}
+		for i := 0; i < m; i++ {
+			n := fmt.Sprintf("fs.old#%d", i)
+			cl := &LineCell{
+				Pres:     And(old.Exists, ex.nondet(n+".pres", "bool").(BoolV).T),
+				Blank:    False,
+				Parses:   True,
+				Complete: True,
+				Ev:       ex.havoc(n+".ev", w.eventT, hs, ""),
+			}
+			old.Cells = append(old.Cells, cl)
+		}
+	}
 	dir := w.file(StrV{T: ergodir})
 	dir.Exists = True
+	for _, f := range w.fs.files {
+		f.Exists0 = f.Exists
+	}
 	return StrV{T: w.dirAtom}
 }
 
